@@ -18,8 +18,15 @@ VP = "deep.processor.variable_processor"
 AC = "deep.processor.context.action_context.ActionContext"
 
 
-def _made_encodable(e) -> bool:
-    """<text>.encode('utf-8', <lenient>).decode(...)"""
+def _made_encodable(e, ctx=None, fi=None, depth=0) -> bool:
+    """<text>.encode('utf-8', <lenient>).decode(...) - written out, or through a helper of the repository that returns
+    exactly that of its argument"""
+    if ctx is not None and fi is not None and isinstance(e, ast.Call) and depth < 3 and not (isinstance(e.func, ast.Attribute) and e.func.attr == "decode"):
+        tg = ctx.types.resolve_call(e, fi)
+        if tg.repo and not tg.ext:
+            rets = [r for g in tg.repo for r in ctx.types.nodes_in(g, ast.Return)]
+            return bool(rets) and all(r.value is not None and _made_encodable(r.value, ctx, g, depth + 1) for g in tg.repo for r in ctx.types.nodes_in(g, ast.Return))
+        return False
     if not (isinstance(e, ast.Call) and isinstance(e.func, ast.Attribute) and e.func.attr == "decode"):
         return False
     inner = e.func.value
@@ -43,11 +50,11 @@ def sanitiser_ok(ctx: Ctx, f):
         if v is None:
             bad.append(r)
             continue
-        if _made_encodable(v):
+        if _made_encodable(v, ctx, f):
             continue
         if isinstance(v, ast.Name):
             bs = [b for k, b in t.local_bindings(f, v.id) if k != "param"]
-            if bs and all(isinstance(b, tuple) and b[1] is not None and _made_encodable(b[1]) for b in bs):
+            if bs and all(isinstance(b, tuple) and b[1] is not None and _made_encodable(b[1], ctx, f) for b in bs):
                 continue
         bad.append(r)
     return bad
@@ -105,7 +112,7 @@ def encodable(ctx: Ctx, e, fi, san, tn, depth=0, assume=frozenset(), deny=frozen
     if isinstance(e, ast.Subscript):
         return rec(e.value)    # a slice / element of encodable text encodes
     if isinstance(e, ast.Call):
-        if _made_encodable(e):
+        if _made_encodable(e, ctx, fi):
             return True
         if isinstance(e.func, ast.Name) and e.func.id in ("len", "id", "type", "int", "float", "bool", "hash") and not t.local_bindings(fi, e.func.id):
             return True
